@@ -837,6 +837,73 @@ pub fn streamsm(trace: &[Value]) -> Vec<Value> {
     out
 }
 
+/// C02: completion of event-driven workloads and the timer obligations at every step
+pub fn progress(trace: &[Value]) -> Vec<Value> {
+    let cfgx = &trace[0]["cfgx"];
+    let count_faults = |k: &str| cfgx[k].as_array().map_or(0, |a| a.iter().filter(|x| *x != "ok").count()) as i64;
+    let k = count_faults("fates_c2s") + count_faults("fates_s2c");
+    let mut out = vec![json!({"ev":"Reset","run":trace[0]["run"],"k":k,"late":cfgx["late_us"].as_i64().unwrap_or(0),
+        "lat":cfgx["latency_us"].as_i64().unwrap_or(10000),"budget_s":trace[0]["tag"]["budget_s"].as_i64().unwrap_or(300)})];
+    for e in trace {
+        let ev = e["ev"].as_str().unwrap_or("");
+        match ev {
+            "Tx" | "TxNone" | "Timeout" | "Rx" | "Call" => {
+                let Some(p) = e.get("post") else { continue };
+                if ev == "Rx" && e["kind"] != "conn" {
+                    continue;
+                }
+                if p.get("gone").is_some() {
+                    continue;
+                }
+                let n = e["n"].as_i64().unwrap_or(0);
+                let path = &p["path"];
+                let ampb = path["val"] == false
+                    && path["recvd"].as_i64().unwrap_or(0) * 3 < path["sent"].as_i64().unwrap_or(0) + 1;
+                let sp = &p["sp"];
+                // the client knows the server validated its address once a Handshake/1-RTT packet was
+                // acknowledged or the Handshake keys are gone
+                let pcav = n == 0
+                    || sp[1]["lack"].as_i64().unwrap_or(-1) >= 0
+                    || sp[2]["lack"].as_i64().unwrap_or(-1) >= 0
+                    || (sp[2]["keys"] == true && sp[1]["keys"] == false);
+                out.push(json!({"ev":"Step","kind":ev,"t":e["t"],"side":side_of(n),"st":st_name(&p["st"]),
+                    "ifae":path["ifae"],"ampb":ampb,"tm0":p["tm"][0],"tm6":p["tm"][6],"pcav":pcav,
+                    "hsfl": sp[0]["nsent"].as_i64().unwrap_or(0) + sp[1]["nsent"].as_i64().unwrap_or(0)}));
+            }
+            "Panic" | "StepBound" => out.push(json!({"ev":ev,"t":e["t"],"what":e["what"]})),
+            "End" => {
+                // a step is quiescent when the same connection does nothing more at that instant
+                let mut last_of: std::collections::HashMap<String, usize> = Default::default();
+                for i in 0..out.len() {
+                    if out[i]["ev"] == "Step" {
+                        let key = format!("{}", out[i]["side"]);
+                        if let Some(&j) = last_of.get(&key) {
+                            let q = out[j]["t"].as_i64() < out[i]["t"].as_i64();
+                            out[j]["quiet"] = json!(q);
+                        }
+                        last_of.insert(key, i);
+                    }
+                }
+                for (_, j) in last_of {
+                    out[j]["quiet"] = json!(true);
+                }
+                let lost = e["conns"].as_array().map_or(0, |a| a.iter().filter(|c| c["lost"].as_i64().unwrap_or(0) > 0).count());
+                // bytes in flight that consist solely of padded non-ack-eliciting packets on a side that
+                // pads to the MTU (signature of a known finding)
+                let pad = |side: &str| cfgx[side]["pad_to_mtu"] == true;
+                let stuck = e["conns"].as_array().is_some_and(|a| a.iter().any(|c| {
+                    c["ifb"].as_i64().unwrap_or(0) > 0 && c["ifae"].as_i64().unwrap_or(0) == 0
+                        && pad(if c["n"] == 0 { "server" } else { "client" })
+                }));
+                out.push(json!({"ev":"End","t":e["t"],"done":e["apps_done"],"steps":e["steps"],"lost":lost,
+                    "stuckpad":stuck}));
+            }
+            _ => {}
+        }
+    }
+    out
+}
+
 pub fn project(name: &str, trace: &[Value]) -> Vec<Value> {
     match name {
         "lifecycle" => lifecycle(trace),
@@ -846,6 +913,7 @@ pub fn project(name: &str, trace: &[Value]) -> Vec<Value> {
         "flow" => flow(trace),
         "recovery" => recovery(trace),
         "streamsm" => streamsm(trace),
+        "progress" => progress(trace),
         "master" => trace.to_vec(),
         o => panic!("unknown projection {o}"),
     }
